@@ -18,7 +18,7 @@ func init() {
 		Explain: "Decides on every path of partitionConsumer.parseResponse: the batch's messages are appended to the delivered list only when the batch is not a control batch and — under ReadCommitted — not (transactional ∧ its producer in the aborted set), while under ReadUncommitted nothing is filtered (C11.no-control); " +
 			"parseRecords (which advances child.offset) runs before the control/aborted filters can skip the batch (C11.advance); the aborted set is extended only from index entries whose first offset is not beyond the batch and each used entry is popped, and an entry is removed only on an ABORT marker (C11.marker); the aborted index is sorted by FirstOffset (C11.sorted); the request carries the configured isolation level (C11.request). " +
 			"NOT covered: transactions spanning fetch responses (the set is per response), completeness of the broker's index.",
-		Rules: []func(*Ctx){c11Rules, c11ControlTolerant, c03FetchFields, c03FreshElement, c03ErrLost, c11DecodedElementKept, c11EveryBatchCounted},
+		Rules: []func(*Ctx){c11Rules, c11ControlTolerant, c03FetchFields, c03FreshElement, c03ErrLost, c11DecodedElementKept, c11EveryBatchCounted, c03Advance},
 	})
 }
 
